@@ -1987,9 +1987,139 @@ def _success_flag_finally(tree):
     return n
 
 
+def _inline_vararg_forwarders(tree):
+    """def _h(a, f, *args): [return] E(a, f, *args)          _h(x, F, p, q)      ==>     E(x, F, p, q)
+    A private module-level function of one expression whose `*args` is only forwarded (`g(*args)`), called with plain positional
+    arguments (names, attribute chains, constants): the call is that expression with the parameters replaced - which also
+    resolves a function passed as an argument (`to_bytes(*args)` becomes `BTSString.write(size, data)`)."""
+    import copy as _cp
+    n = 0
+    helpers = {}
+    for fn in [f for f in tree.body if isinstance(f, ast.FunctionDef) and f.name.startswith("_") and not f.decorator_list]:
+        a = fn.args
+        if a.vararg is None or a.kwarg or a.kwonlyargs or a.defaults or a.posonlyargs:
+            continue
+        body = [b for b in fn.body if not (isinstance(b, ast.Expr) and isinstance(b.value, ast.Constant))]
+        if len(body) != 1 or not isinstance(body[0], (ast.Expr, ast.Return)) or body[0].value is None:
+            continue
+        e = body[0].value
+        v = a.vararg.arg
+        uses = [x for x in ast.walk(e) if isinstance(x, ast.Name) and x.id == v]
+        starred = [x for x in ast.walk(e) if isinstance(x, ast.Starred) and isinstance(x.value, ast.Name) and x.value.id == v]
+        if not uses or len(uses) != len(starred) or any(isinstance(x, (ast.Lambda, ast.GeneratorExp, ast.ListComp, ast.NamedExpr)) for x in ast.walk(e)):
+            continue
+        params = [p.arg for p in a.args]
+        if any(sum(1 for x in ast.walk(e) if isinstance(x, ast.Name) and x.id == p) != 1 for p in params):
+            continue   # each parameter evaluated exactly once, so substitution keeps the number of evaluations
+        helpers[fn.name] = (fn, params, v, e, isinstance(body[0], ast.Return))
+    if not helpers:
+        return 0
+    plain = lambda x: isinstance(x, (ast.Name, ast.Constant)) or (isinstance(x, ast.Attribute) and plain(x.value))
+
+    class Inl(ast.NodeTransformer):
+        def visit_Call(self, node):
+            self.generic_visit(node)
+            if isinstance(node.func, ast.Name) and node.func.id in helpers and not node.keywords and all(plain(x) for x in node.args):
+                fn, params, v, e, _ = helpers[node.func.id]
+                if len(node.args) < len(params):
+                    return node
+                bind = dict(zip(params, node.args[:len(params)]))
+                rest = node.args[len(params):]
+
+                class Sub(ast.NodeTransformer):
+                    def visit_Name(self, x):
+                        return _cp.deepcopy(bind[x.id]) if x.id in bind and isinstance(x.ctx, ast.Load) else x
+
+                    def visit_Call(self, c):
+                        self.generic_visit(c)
+                        new_args = []
+                        for arg in c.args:
+                            if isinstance(arg, ast.Starred) and isinstance(arg.value, ast.Name) and arg.value.id == v:
+                                new_args += [_cp.deepcopy(r) for r in rest]
+                            else:
+                                new_args.append(arg)
+                        c.args = new_args
+                        return c
+                nonlocal_n[0] += 1
+                return ast.copy_location(Sub().visit(_cp.deepcopy(e)), node)
+            return node
+    nonlocal_n = [0]
+    for st in tree.body:
+        if isinstance(st, ast.FunctionDef) and st.name in helpers:
+            continue
+        Inl().visit(st)
+    n = nonlocal_n[0]
+    if n:
+        # a forwarder nothing names any more is dead
+        for name, (fn, *_r) in helpers.items():
+            if not any(isinstance(x, ast.Name) and x.id == name for st in tree.body if st is not fn for x in ast.walk(st)):
+                tree.body.remove(fn)
+        ast.fix_missing_locations(tree)
+    return n
+
+
+def _unroll_constant_table_loops(tree):
+    """_TABLE = (("a", u32), ("b", i32))  at module level, bound once;   for name, codec in _TABLE: BODY(name, codec)
+       ==>   BODY("a", u32); BODY("b", i32)
+    The table is a display of at most 16 rows whose cells are string / number constants or plain names; the loop has no else,
+    break or continue and does not assign its targets.  `getattr(x, "a")` with the literal now in place is `x.a`."""
+    import copy as _cp
+    n = 0
+    stores = {}
+    for x in ast.walk(tree):
+        if isinstance(x, ast.Name) and isinstance(x.ctx, ast.Store):
+            stores[x.id] = stores.get(x.id, 0) + 1
+    tables = {}
+    for st in tree.body:
+        if isinstance(st, ast.Assign) and len(st.targets) == 1 and isinstance(st.targets[0], ast.Name) and stores.get(st.targets[0].id) == 1 \
+                and isinstance(st.value, (ast.Tuple, ast.List)) and 1 <= len(st.value.elts) <= 16:
+            cell = lambda c: isinstance(c, ast.Constant) and isinstance(c.value, (str, int, float)) or isinstance(c, ast.Name)
+            rows = st.value.elts
+            if all(cell(r) for r in rows) or (all(isinstance(r, ast.Tuple) and r.elts and all(cell(c) for c in r.elts) for r in rows) and len({len(r.elts) for r in rows}) == 1):
+                tables[st.targets[0].id] = rows
+
+    class U(ast.NodeTransformer):
+        def visit_For(self, node):
+            self.generic_visit(node)
+            if not (isinstance(node.iter, ast.Name) and node.iter.id in tables and not node.orelse):
+                return node
+            rows = tables[node.iter.id]
+            tg = [node.target.id] if isinstance(node.target, ast.Name) else [e.id for e in node.target.elts] if isinstance(node.target, ast.Tuple) and all(isinstance(e, ast.Name) for e in node.target.elts) else None
+            if tg is None or any(isinstance(y, (ast.Break, ast.Continue)) for b in node.body for y in ast.walk(b)) \
+                    or any(isinstance(y, ast.Name) and y.id in tg and isinstance(y.ctx, ast.Store) for b in node.body for y in ast.walk(b)):
+                return node
+            if (len(tg) == 1) != (not isinstance(rows[0], ast.Tuple)) or (isinstance(rows[0], ast.Tuple) and len(rows[0].elts) != len(tg)):
+                return node
+            out = []
+            for r in rows:
+                vals = dict(zip(tg, r.elts if isinstance(r, ast.Tuple) else [r]))
+
+                class S(ast.NodeTransformer):
+                    def visit_Name(self, x):
+                        return _cp.deepcopy(vals[x.id]) if x.id in vals and isinstance(x.ctx, ast.Load) else x
+
+                    def visit_Call(self, c):
+                        self.generic_visit(c)
+                        if isinstance(c.func, ast.Name) and c.func.id == "getattr" and len(c.args) == 2 and not c.keywords and isinstance(c.args[1], ast.Constant) \
+                                and isinstance(c.args[1].value, str) and c.args[1].value.isidentifier():
+                            return ast.copy_location(ast.Attribute(value=c.args[0], attr=c.args[1].value, ctx=ast.Load()), c)
+                        return c
+                out += [S().visit(_cp.deepcopy(b)) for b in node.body]
+            nonlocal_n[0] += 1
+            return out
+    nonlocal_n = [0]
+    if tables:
+        U().visit(tree)
+    if nonlocal_n[0]:
+        ast.fix_missing_locations(tree)
+    return nonlocal_n[0]
+
+
 def normalise_module(tree: ast.Module):
     info = {"constants": 0, "inlined": {}, "dropped_helpers": []}
     _StripFunctionAnnotations().visit(tree)
+    _unroll_constant_table_loops(tree)
+    _inline_vararg_forwarders(tree)
     _success_flag_finally(tree)
     _LoopPrefixSkip().visit(tree)
     _BytesIOWith().visit(tree)
